@@ -1,6 +1,5 @@
-import CkbVerif.Driver.Util
+import CkbVerif.Driver.C01
+/-! C08 uses the chain-pipeline driver of C01 (ops `deliver`, `crash`, `restart`, `scan`). -/
 namespace CkbVerif.Driver.C08
-def main (_args : List String) : IO UInt32 := do
-  IO.eprintln "C08: model driver not implemented"
-  return 2
+def main (args : List String) : IO UInt32 := CkbVerif.Driver.C01.main args
 end CkbVerif.Driver.C08
